@@ -97,6 +97,27 @@ Proof.
 Qed.
 Print Assumptions parameter_read_one_snapshot_not_stale.
 
+(* Responses are VALUES: a response, once given, stays in the history unchanged however the run continues (later
+   updates included), and it equals the specification's response at its linearization point -- in one state of
+   a sequential execution of the whole extended run.  (In the model this is immediate because a response is a Coq
+   value; for the implementation it is an obligation on what is returned -- artifact objects and ParameterData
+   slices must not alias buffers that later updates write -- checked on every run by re-reading every retained
+   response later, see Check/C13.v [values_ok].) *)
+Theorem responses_are_values : forall fs s programs c tr ext c' x,
+  lock_facts_ok fs = true ->
+  reach (guard_of fs) (init_config s programs) c tr -> In x (calls_of tr) ->
+  reach (guard_of fs) (init_config s programs) c' (ext ++ tr) -> quiescent c' ->
+  In x (calls_of (ext ++ tr)) /\
+  exists before after,
+    Permutation (before ++ x :: after) (calls_of (ext ++ tr)) /\ legal s before /\
+    c_resp x = snd (seq_step (run_calls s before) (c_op x)) /\
+    Forall (fun u => c_inv x < c_res u) after.
+Proof.
+  intros fs s programs c tr ext c' x HF. apply LockSemProofs.responses_are_values.
+  apply lock_facts_guard. exact HF.
+Qed.
+Print Assumptions responses_are_values.
+
 (* What the lock buys (not about the checked tree): if the lock fact of Artifact were false while UpdateParameter
    is guarded, two threads suffice for an artifact that is the evaluation of none of the states that ever
    existed, and the run is not linearizable. *)
